@@ -136,6 +136,8 @@ def cases(tier, seed):
                ["plain", "early_complete", "transfer", "early_fail", "early_complete", "rc", "transfer", "rc"])[j % 8]
         if pat != "plain":
             sp[pat] = True
+        else:
+            sp["subsample"] = True  # small max_size_data_for_model: the state converter down-samples the data
         out.append(sp)
     n_gp = 16 if quick else 200
     for kind in GP_DILL_KINDS:
@@ -210,6 +212,7 @@ def floors(tier):
     f["rp_in_initial_random_phase_with_restrict_configurations_after_a_random_draw"] = 15 * kk
     f["rp_dill_with_brackets_gt1"] = 500 * k
     f["continuations_under_perturbed_global_rng"] = 3000 * k
+    f["rp_with_down_sampling_active"] = 8 * kk
     f["rp_with_cached_gaussian"] = 10 * kk
     f["rp_with_odd_num_init_candidates"] = 60 * kk
     f["rp_initial_scoring:thompson_indep"] = 100 * kk
@@ -504,6 +507,21 @@ def expand(spec):
                 p["max_trials"] = max(p["max_trials"], p["gp"]["num_init_random"] + 3)
                 p["n_workers"] = rng.randint(1, 3)
                 p["fail_rate"] = rng.choice([0.0, 0.0, 0.15])
+        if spec.get("subsample"):
+            # max_size_data_for_model below the number of observations of the history: the state converter down-samples
+            # the data the surrogate model is fitted to
+            p["gp"]["max_size_data_for_model"] = rng.randint(3, 5)
+            if "model" in p["gp"]:
+                p["gp"]["model"] = "gp_multitask"  # gp_independent cannot be restored at all (C16-F6)
+            p["gp"]["num_init_random"] = 2
+            p["gp"].pop("allow_duplicates", None)
+            p["rc"] = False
+            p["n_workers"] = rng.randint(1, 2)
+            p["max_trials"] = rng.randint(10, 13)
+            p["max_events"] = rng.randint(34, 46)
+            p["fail_rate"] = 0.0
+            if p.get("template") == "fresh":
+                p["gp"]["no_fantasizing"] = True  # keep C16-F7 out of these cases
         if spec.get("transfer"):
             # documented transfer-HPO set-up: categorical task attribute, active task, observations of OTHER tasks
             # already in the searcher's state; the active task starts with fewer than num_init_random configs
@@ -1553,6 +1571,10 @@ def _restore_in_scheduler(sched, info, p=None, seed=None):
         saved = np.random.get_state()
         template = build(p, seed)[0].searcher
         np.random.set_state(saved)
+    try:
+        info["n_obs"] = int(searcher.state_transformer.state.num_observed_cases())
+    except Exception:  # noqa: BLE001
+        info["n_obs"] = None
     fp0 = _gp_rng_fingerprint(searcher)
     try:
         # read-only probe (mechanism key only): configs the searcher's internal random searcher would not draw again
@@ -1601,6 +1623,12 @@ def _reseed_gp_rng_like_fresh(sched, p, seed):
     for gm, gf in zip(_gp_models(sched.searcher), _gp_models(fresh)):
         if gm is not None and gf is not None:
             gm.random_state.set_state(gf.random_state.get_state())
+
+
+def _drop_state_converter(sched, info):
+    st = sched.searcher.state_transformer
+    info["had_converter"] = getattr(st, "_state_converter", None) is not None
+    st._state_converter = None
 
 
 def _param_roundtrip_in_place(sched, info):
@@ -1661,6 +1689,8 @@ def _gp_options(p):
         out.append("early_fail")
     if g.get("model") == "gp_independent":
         out.append("model_gp_independent")
+    if g.get("max_size_data_for_model") is not None:
+        out.append("max_size_data_for_model")
     return out
 
 
@@ -1757,6 +1787,16 @@ def _child_p2_point(p, seed, order, k, log1):
                 info["explained_by_gp_rng"] = bd3 is None or bd3 > d
             except Exception:  # noqa: BLE001
                 info["explained_by_gp_rng"] = None
+        if d is not None and d >= info["idx"] and (p.get("gp") or {}).get("max_size_data_for_model") is not None:
+            # attribution for C16-F11: the *uninterrupted* searcher merely loses its state converter (the object that
+            # down-samples the data to max_size_data_for_model); if that alone reproduces the restored trace, the
+            # difference is the converter missing in the clone
+            try:
+                base = _run_to_k_then(p, seed, order, k, _drop_state_converter)
+                bd4 = _first_diff(base["log"], info["log"], band=True)
+                info["explained_by_lost_state_converter"] = bool(base.get("had_converter")) and (bd4 is None or bd4 > d)
+            except Exception:  # noqa: BLE001
+                info["explained_by_lost_state_converter"] = None
         if d is not None and d >= info["idx"] and d < len(info["log"]) and info.get("_internal_excl"):
             try:
                 e2 = info["log"][d]
@@ -1884,6 +1924,9 @@ def run_gpclone(spec, o):
         o.count("decided:random_generator_state_equal")
         if pt.get("perturbed_global_rng"):
             o.count("continuations_under_perturbed_global_rng")
+        msz = (p.get("gp") or {}).get("max_size_data_for_model")
+        if msz is not None and (pt.get("n_obs") or 0) > msz:
+            o.count("rp_with_down_sampling_active")
         if pt.get("in_random_phase"):
             o.count("rp_in_initial_random_phase:gpclone")
             if p.get("rc"):
@@ -1932,7 +1975,9 @@ def run_gpclone(spec, o):
         if pt.get("baseline_reproduces_p1") is False:
             o.count(f"gp_difference_not_reproducible:{fac}")
             continue
-        if pt.get("params") == "gross":
+        if pt.get("explained_by_lost_state_converter"):
+            what += ":down_sampling_active"
+        elif pt.get("params") == "gross":
             what += ":restored_model_params_discarded"
         elif e1 is not None and e2 is not None and what == "suggest:config_differs" and _in_float_band(e1[2], e2[2]):
             o.count("roundoff_band")
@@ -1959,6 +2004,8 @@ def run_gpclone(spec, o):
                   {"restore_point_k": k, "first_difference_at_call": d, "calls_after_restore": d - idx,
                    "uninterrupted": e1, "restored": e2, "restored_model_params_vs_snapshot": pt.get("params"),
                    "gp_model_random_state_after_restore": pt.get("gp_rng"),
+                   "explained_by_lost_state_converter": pt.get("explained_by_lost_state_converter"),
+                   "observations_at_snapshot": pt.get("n_obs"),
                    "explained_by_gp_model_random_state_alone": pt.get("explained_by_gp_rng"),
                    "explained_by_param_roundtrip": pt.get("explained_by_param_roundtrip"),
                    "paused_at_snapshot": pt["paused"], "running_at_snapshot": pt["running"],
